@@ -1,4 +1,6 @@
 import Pike.Lemmas.Codec
+import Pike.Facts
+import Pike.Spec.Skeleton
 /-
 C09 — the persistence format round-trips exactly and rejects garbage safely.
 `c : HCodec H` bundles the library behaviour the format relies on: the JSON encoding of the
@@ -10,6 +12,18 @@ namespace C09
 open Codec
 
 variable {H : Type}
+
+/-- Obligation on the regenerated statement skeletons of the record encoders/decoders (field order, 32/64-bit big-endian length and time fields, `Next(size)` slicing): they are what `Codec.encodeEntry/decodeEntry/encodeResp/decodeResp` transcribe. -/
+theorem skeleton_transcribed :
+    Facts.skel_HTTPResponse_Bytes = Spec.Skeleton.HTTPResponse_Bytes
+    ∧ Facts.skel_HTTPResponse_FromBytes = Spec.Skeleton.HTTPResponse_FromBytes
+    ∧ Facts.skel_httpCache_Bytes = Spec.Skeleton.httpCache_Bytes
+    ∧ Facts.skel_httpCache_FromBytes = Spec.Skeleton.httpCache_FromBytes
+    ∧ Facts.skel_readUint32ToInt = Spec.Skeleton.readUint32ToInt
+    ∧ Facts.skel_readUint64ToInt64 = Spec.Skeleton.readUint64ToInt64
+    ∧ Facts.skel_uint32ToBytes = Spec.Skeleton.uint32ToBytes
+    ∧ Facts.skel_uint64ToBytes = Spec.Skeleton.uint64ToBytes := by
+  refine ⟨?_, ?_, ?_, ?_, ?_, ?_, ?_, ?_⟩ <;> rfl
 
 /-- FULL STATEMENT (round trip).  For every entry whose field sizes fit the 32-bit length
 prefixes, whose timestamps are int64, whose header survives the JSON round trip and whose filter
